@@ -425,6 +425,8 @@ def run(rep, tier):
         rep.call(index_rules.cropped_row_slices, rep, prog, "C13.view-offsets-cropped")
         rep.call(dispatch_pure, rep, prog, "C13.dispatch-pure")
         rep.call(row_stride, rep, prog, "C13.row-stride")
+        from ..engines import siblings as _sib
+        rep.call(_sib.geometry_roles, rep, prog, "C13.geometry-roles")
         # the dynamic entry point does what the typed one does: right type, same operation
         from ..engines import type_tables
         rep.call(type_tables.t_types, rep, prog, "C13.table")
